@@ -12,6 +12,7 @@ from . import expr as X
 from . import cond as C
 from .facts import AnalysisBroken
 from .rules_c03 import in_condition, read_keys, written_keys, StateTables
+from .rules_c10 import lvalue_writes
 
 
 def r1(F, rep):
@@ -150,9 +151,44 @@ def r5(F, rep):
                  "the harmonic-walls restraint (lower/upper walls, their flags and force constants)")
 
 
+def r6(F, rep):
+    rep.rule("C06-R6", "accumulated work is collected only while the schedule runs: in both update_acc_work() siblings "
+                       "(moving centres, moving force constant) the `acc_work +=` site is gated by step_relative() > 0, by the "
+                       "schedule window step_absolute() - first_step <= target_nsteps, by outputAccumulatedWork and by the "
+                       "restraint's own change flag -- the same set of gates in both")
+    sib = {}
+    for q in ("colvarbias_restraint_centers_moving::update_acc_work", "colvarbias_restraint_k_moving::update_acc_work"):
+        f = F.one(q)
+        res = X.const_locals(f)
+        adds = [w for w, t in lvalue_writes(f) if X.key(t, f) == "this.acc_work" and w.get("op") == "+="]
+        if not adds:
+            rep.add("C06-R6", "%s|present" % q, f.loc(), "%s never adds to acc_work" % q, False, func=q)
+            continue
+        facts, _ = C.guard_facts(f, adds[0], res)
+        gates = set()
+        for t in facts:
+            s = X.re_strip(str(t))
+            if t[0] == "pos" and "step_relative()" in t[1]:
+                gates.add("step_relative() > 0")
+            if t[0] == "cmp" and t[1] == "<=" and "first_step" in t[2] and "target_nsteps" in t[3]:
+                gates.add("schedule window")
+            if t[0] == "true" and "f_cvb_output_acc_work" in t[1]:
+                gates.add("outputAccumulatedWork")
+            if t[0] == "true" and ("b_chg_centers" in t[1] or "b_chg_force_k" in t[1]):
+                gates.add("change flag")
+        sib[q] = gates
+        want = {"step_relative() > 0", "schedule window", "outputAccumulatedWork", "change flag"}
+        rep.add("C06-R6", "%s|gates" % q, f.loc(adds[0]), "%s accumulates work under: %s" % (q, sorted(gates)), gates == want,
+                detail="missing gate(s) %s: work would keep accumulating after the parameter stopped changing, or on the repeated first step" % sorted(want - gates), func=q)
+    if len(sib) == 2:
+        a, b = list(sib.values())
+        rep.add("C06-R6", "siblings-agree", "", "both siblings use the same gates", a == b, func="colvarbias_restraint_*_moving::update_acc_work")
+
+
 def run(F, rep, tier):
     r1(F, rep)
     r2(F, rep)
     r3(F, rep)
     r4(F, rep)
     r5(F, rep)
+    r6(F, rep)
